@@ -65,6 +65,8 @@ def render(st, n, opts=None):
 
     def ident(name):
         legal = re.sub(r"[^A-Za-z0-9_]", "_", name)       # q[1] -> q_1_
+        # identifiers are compared ignoring case: Core and core need different ones (Core -> c9ore)
+        legal = re.sub(r"[A-Z]", lambda m: m.group(0).lower() + "9", legal)
         return ("id_" + legal) if rename else legal
 
     def decl(name):
